@@ -169,5 +169,5 @@ func vhC06(maxR, maxA, maxP int) {
 	}
 }
 
-func VH_C06_conditions() { vhC06(2, 2, 2) }
+func VH_C06_conditions()      { vhC06(2, 2, 2) }
 func VH_C06_conditions_deep() { vhC06(3, 3, 3) }
